@@ -61,7 +61,11 @@ Record config := mkConfig {
   c_mount : N;          (* 0 add_static_view(name, root): route name/*subpath
                            1 add_route('/*subpath') + static_view(root, use_subpath=True)
                            2 static_view(root, use_subpath=False)(context, request)
-                           3 static_view(root, use_subpath=True)(context, request), request.subpath given *)
+                           3 static_view(root, use_subpath=True)(context, request), request.subpath given
+                           4 add_route('/name/{subpath:.*}') + static_view(root, use_subpath=True): the matchdict
+                             holds a STRING, which ResourceTreeTraverser.__call__ splits
+                           5 add_view(static_view(root, use_subpath=True), name=name), no route: traversal from the
+                             default root finds the view name and hands the remaining segments over as request.subpath *)
   c_name : text;
   c_pkg : bool;         (* package-relative root *)
   c_docroot : text;     (* what static_view keeps as self.docroot *)
@@ -149,14 +153,20 @@ Definition nl : N := 10.
 Definition drop_final_nl (s : text) : text :=
   match rev s with x :: r => if x =? nl then rev r else s | [] => s end.
 
-(* what '(?P<subpath>REMAINDER)ANCHOR' captures of the text after the literal prefix *)
-Definition remainder_capture (rest : text) : option text :=
-  match route_remainder_dotall, route_anchor_abs with
+(* what '(?P<name>FRAGMENT)ANCHOR' captures of the text after the literal prefix, FRAGMENT being '.*' / '.*?'
+   with or without DOTALL and ANCHOR '\Z' (abs) or '$' *)
+Definition capture (dotall abs : bool) (rest : text) : option text :=
+  match dotall, abs with
   | true, true => Some rest
   | true, false => Some (drop_final_nl rest)
   | false, true => if memN nl rest then None else Some rest
   | false, false => let r := drop_final_nl rest in if memN nl r then None else Some r
   end.
+
+(* the *subpath remainder: fragment and anchor are regenerated facts *)
+Definition remainder_capture (rest : text) : option text := capture route_remainder_dotall route_anchor_abs rest.
+(* a '{subpath:.*}' placeholder: the regex is the user's ('.' does not match a line feed), the anchor is _compile_route's *)
+Definition placeholder_capture (rest : text) : option text := capture false route_anchor_abs rest.
 
 Definition route_match (prefix p : text) : option text :=
   match strip_prefix prefix p with
@@ -164,12 +174,36 @@ Definition route_match (prefix p : text) : option text :=
   | Some rest => remainder_capture rest
   end.
 
+Definition route_match_ph (prefix p : text) : option text :=
+  match strip_prefix prefix p with
+  | None => None
+  | Some rest => placeholder_capture rest
+  end.
+
 (* name + '/' and the leading '/' added by _compile_route *)
 Definition route_prefix (c : config) : text :=
   match c_mount c with
-  | 0 => [slash] ++ c_name c ++ [slash]
+  | 0 | 4 => [slash] ++ c_name c ++ [slash]
   | _ => [slash]
   end.
+
+(* ResourceTreeTraverser.__call__, route matched, matchdict['subpath'] is a str (a '{subpath}' placeholder, not the
+   '*subpath' tuple): routing has decoded it; which function splits it is a regenerated fact (split_path_info only
+   splits, traversal_path_info would apply the latin-1 / UTF-8 decoding once more) *)
+Definition traverser_tuple (s : text) : sum resp (list text) :=
+  if traverser_str_decodes_again then
+    if latin1 s then
+      match decode s with
+      | None => Datatypes.inl (RExc 1)
+      | Some u => Datatypes.inr (split_path_info_f u)
+      end
+    else Datatypes.inl (RExc 3)
+  else Datatypes.inr (split_path_info_f s).
+
+(* ResourceTreeTraverser.__call__, no route matched, root = DefaultRootFactory (no __getitem__): the first
+   normalised segment is the view name ('@@' selector stripped), the others are request.subpath *)
+Definition traversal_view_name (seg : text) : text :=
+  if text_eqb (firstn 2 seg) traverser_view_selector then skipn 2 seg else seg.
 
 (* ------------------------------------------------------------ request.path_url *)
 Definition path_url (c : config) (pi : text) : option text :=
@@ -348,6 +382,32 @@ Definition run_request (c : config) (fs : fsys) (fm : filemap) (rq : request) : 
           end
       end
   | 2 => serve_path_info c rq pi fs fm
+  | 4 =>
+      match decode pi with
+      | None => ret (RExc 1, fm)                              (* RoutesMapper: URLDecodeError *)
+      | Some p0 =>
+          let p := match p0 with [] => [slash] | _ => p0 end in
+          match route_match_ph (route_prefix c) p with
+          | None => ret (R404 0, fm)
+          | Some rest =>
+              match traverser_tuple rest with
+              | Datatypes.inl r => ret (r, fm)
+              | Datatypes.inr t => serve c rq pi fs fm t
+              end
+          end
+      end
+  | 5 =>
+      match decode pi with
+      | None => ret (RExc 1, fm)                              (* RoutesMapper / traverser: URLDecodeError *)
+      | Some p0 =>
+          let p := match p0 with [] => [slash] | _ => p0 end in
+          match split_path_info_f p with
+          | [] => ret (R404 0, fm)                            (* view name '': no such view *)
+          | seg :: rest =>
+              if text_eqb (traversal_view_name seg) (c_name c) then serve c rq pi fs fm rest
+              else ret (R404 0, fm)
+          end
+      end
   | _ => serve c rq pi fs fm (r_subpath rq)
   end.
 
@@ -399,9 +459,17 @@ Definition seg_ok (s : text) : bool := normal_segb s && negb (memN 0 s).
 
 Definition spec_prefix (c : config) : text :=
   match c_mount c with
-  | 0 => [slash] ++ c_name c ++ [slash]
+  | 0 | 4 => [slash] ++ c_name c ++ [slash]
   | 1 => [slash]
   | _ => []
+  end.
+
+(* '@@name' selects the view [name] explicitly (Pyramid's view selector) *)
+Definition at_sign : N := 64.
+Definition spec_view_name (seg : text) : text :=
+  match seg with
+  | a :: b :: r => if (a =? at_sign) && (b =? at_sign) then r else seg
+  | _ => seg
   end.
 
 (* None: not decodable.  Some None: not below this mount point, or a segment
@@ -419,6 +487,34 @@ Definition spec_segments (c : config) (rq : request) : option (option (list text
           | Some rest =>
               let segs := split_path_info rest in
               if forallb seg_ok segs then Some (Some segs) else Some None
+          end
+      end
+  | 4 =>
+      (* a route whose pattern is '/name/{subpath:.*}': its URLs are '/name/' + any text without a line feed *)
+      match decode (unquote (r_raw rq)) with
+      | None => None
+      | Some p0 =>
+          let p := match p0 with [] => [slash] | _ => p0 end in
+          match strip_prefix (spec_prefix c) p with
+          | None => Some None
+          | Some rest =>
+              if memN 10 rest then Some None
+              else let segs := split_path_info rest in
+                   if forallb seg_ok segs then Some (Some segs) else Some None
+          end
+      end
+  | 5 =>
+      (* a view named [name] found by traversal: the first normalised segment (an optional '@@' removed) is the
+         name, the others designate the file *)
+      match decode (unquote (r_raw rq)) with
+      | None => None
+      | Some p0 =>
+          match split_path_info p0 with
+          | [] => Some None
+          | seg :: segs =>
+              if text_eqb (spec_view_name seg) (c_name c)
+              then (if forallb seg_ok segs then Some (Some segs) else Some None)
+              else Some None
           end
       end
   | _ => Some (if forallb seg_ok (r_subpath rq) then Some (r_subpath rq) else None)
